@@ -31,7 +31,12 @@ RULE = ("random DAGs with 1..6 nodes, node names str / int / mixed with insertio
         "marginalize (every subset) / reduce (every proper subset, shuffled value order) / to_canonical_factor "
         "(K, h, g) / canonical round trip / product & divide with an overlapping second scope, vs model and numpy "
         "formulas; plus a malformed stream (no missing variable, evidence that is not an earlier node, unknown "
-        "variable in reduce, foreign CPD).  Non-trivial: >=2 variables and >=1 edge (networks) / >=2 variables "
+        "variable in reduce, foreign CPD); plus usage SEQUENCES of 2..5 steps on one GaussianDistribution object from "
+        "{precision_matrix, to_canonical_factor, copy, marginalize, reduce, product, divide; in place or continuing "
+        "with the returned object}, one third of them directed (fill the cache, marginalise, use the precision API), "
+        "with mean / covariance / cached and public precision / canonical K, h, g of the object, of the object left "
+        "behind and of the other operand compared after EVERY step against the model state machine and from-scratch "
+        "formulas.  Non-trivial: >=2 variables and >=1 edge (networks) / >=2 variables "
         "(distributions); distinct = distinct canonical input")
 TRUSTED_BASE = ["numpy linalg.inv / matmul / fancy indexing / np.delete / round, sklearn LinearRegression and pandas "
                 "mean/var(ddof=1) are modelled by their documented meaning (Base/Matrix.v); the model's inverse is a "
@@ -169,6 +174,66 @@ def gen_gauss(rng):
             "cov2": [[jf(x) for x in r] for r in rand_pd(rng, len(v2))], "qseed": rng.randint(0, 10**9)}
 
 
+
+def gen_seq(rng, directed=False):
+    """a usage sequence of 2..5 steps on ONE GaussianDistribution object (see run_seq)"""
+    n = rng.randint(2, 5)
+    scope = list(range(n))
+    rng.shuffle(scope)
+    nxt = n
+    case = {"kind": "seq", "style": rng.choice(["str", "int", "mixed"]), "nameseed": rng.randint(0, 10**9),
+            "vars": list(scope), "mean": [jf(dy(rng, -3, 3)) for _ in range(n)],
+            "cov": [[jf(x) for x in r] for r in rand_pd(rng, n)], "steps": []}
+    nsteps = rng.randint(2, 5)
+    plan = None
+    if directed:   # fill the cache, marginalise, then use the precision-based API
+        plan = [rng.choice(["prec", "canon", "product-self", "copy-after-prec"]), "marg",
+                rng.choice(["prec", "canon", "product", "copy"])]
+        nsteps = len(plan)
+    for i in range(nsteps):
+        ops = ["prec", "canon", "copy", "product"]
+        if len(scope) >= 2:
+            ops += ["marg", "marg", "reduce"]
+        if i == nsteps - 1:
+            ops.append("divide")
+        op = plan[i] if plan else rng.choice(ops)
+        if op == "marg" and len(scope) < 2:
+            op = "canon"
+        if op == "copy-after-prec":
+            case["steps"].append({"op": "prec"})
+            op = "copy"
+        if op in ("prec", "canon", "copy"):
+            case["steps"].append({"op": op})
+        elif op in ("marg", "reduce"):
+            k = rng.randint(1, len(scope) - 1)
+            sel = rng.sample(scope, k)
+            st = {"op": op, "sel": sel, "inplace": rng.random() < 0.5}
+            if op == "reduce":
+                st["values"] = [jf(dy(rng, -3, 3)) for _ in sel]
+            scope = [v for v in scope if v not in sel]
+            case["steps"].append(st)
+        else:
+            self_cont = op == "product-self"
+            opn = "divide" if op == "divide" else "product"
+            n2 = rng.randint(1, 2)
+            shared = rng.randint(0, min(len(scope), n2))
+            fresh = n2 - shared if nxt + (n2 - shared) <= 8 else 0
+            v2 = rng.sample(scope, shared) + list(range(nxt, nxt + fresh))
+            if not v2:
+                v2 = [scope[0]]
+            nxt += fresh
+            rng.shuffle(v2)
+            inplace = (not self_cont) and rng.random() < 0.5
+            cont = "self" if self_cont or (not inplace and opn == "product" and rng.random() < 0.3) else "result"
+            case["steps"].append({"op": opn, "v2": v2, "mean2": [jf(dy(rng, -3, 3)) for _ in v2],
+                                  "cov2": [[jf(x) for x in r] for r in rand_pd(rng, len(v2))],
+                                  "inplace": inplace, "cont": cont})
+            if cont == "result":
+                scope = scope + [v for v in v2 if v not in scope]
+    case["nvars"] = nxt
+    return case
+
+
 def cases(tier, seed):
     rng = random.Random(seed)
     out = []
@@ -187,6 +252,8 @@ def cases(tier, seed):
         out.append(gen_fit(rng))
     for _ in range(90 * k):
         out.append(gen_gauss(rng))
+    for i in range(140 * k):
+        out.append(gen_seq(rng, directed=(i % 3 == 0)))
     for i in range(24 * k):
         c = gen_lgbn(rng, nmax=4)
         c["kind"] = "bad"
@@ -217,6 +284,16 @@ def shrink(case):
                 c = dict(case)
                 c["only"] = list(S)
                 yield c
+    if case["kind"] == "seq":
+        st = case["steps"]
+        for i in range(len(st) - 1, -1, -1):       # drop a trailing / leading / scope-neutral step
+            if i == len(st) - 1 or i == 0 or st[i]["op"] in ("prec", "canon", "copy"):
+                if i == 0 and st[0]["op"] not in ("prec", "canon", "copy"):
+                    continue
+                c = dict(case)
+                c["steps"] = st[:i] + st[i + 1:]
+                if c["steps"]:
+                    yield c
     if case["kind"] == "fit":
         for (u, w) in case["edges"]:
             c = dict(case)
@@ -771,6 +848,233 @@ def run_gauss(case, drv):
     return ok(nontrivial=n >= 2, key=key, tags=tags)
 
 
+
+# ------------------------------------------------------------------ usage sequences on one object (cache)
+def run_seq(case, drv):
+    """Random 2..5-step sequences of {precision_matrix, to_canonical_factor, copy, marginalize, reduce, product,
+    divide} (in place or continuing with the returned object) on ONE GaussianDistribution.  After every step the
+    object (and the object left behind, and the other operand) must describe the expected distribution in every
+    view: variables / mean / covariance, the cached _precision_matrix when present, and -- read through a copy() so
+    that the check itself does not fill the object's cache -- precision_matrix and to_canonical_factor K, h, g; all
+    recomputed from scratch by name (model state machine Model.o_trace + formulas).  C20_precision_cache_consistent
+    is the theorem behind it."""
+    import numpy as np
+    from pgmpy.factors.distributions import GaussianDistribution as GD
+    names = names_for(case["nvars"], case["style"], case["nameseed"])
+    idx = {repr(nm): i for i, nm in enumerate(names)}
+    tags = ["seq steps=%d" % len(case["steps"]), "style=" + case["style"]]
+
+    def mkgd(vs, mean, cov):
+        return GD([names[v] for v in vs], [float(fr(x)) for x in mean], [[float(fr(x)) for x in r] for r in cov])
+
+    # ---- the model: expected state after every step
+    enc = []
+    for st in case["steps"]:
+        op = st["op"]
+        if op == "prec":
+            enc.append([0])
+        elif op == "canon":
+            enc.append([1])
+        elif op == "copy":
+            enc.append([2])
+        elif op == "marg":
+            enc.append([3, st["sel"]])
+        elif op == "reduce":
+            enc.append([4, [[v, fr(x)] for v, x in zip(st["sel"], st["values"])]])
+        else:
+            enc.append([6 if st["cont"] == "self" else 5, op == "product",
+                        [st["v2"], fvec(st["mean2"]), fmat(st["cov2"])]])
+    g0 = [case["vars"], case["mean"], case["cov"]]          # wire form ([num, den] entries), like the model's replies
+    trace = drv.call("c20_seq", [[case["vars"], fvec(case["mean"]), fmat(case["cov"])], enc])
+
+    canon_cache = {}
+
+    def expected(gs):
+        """gs = model gauss [vars, mean, cov] (wire form) -> floats + from-scratch K, h (exact, via the model)"""
+        kk = common.canon_key(gs)
+        if kk not in canon_cache:
+            vs, m, c = gs
+            st_, r = drv.call_e("c20_canon", [vs, fvec(m), fmat(c)])
+            if st_ != "ok":
+                canon_cache[kk] = None
+            else:
+                (cv, cK, ch), back = r
+                fm = np.array([float(fr(x)) for x in m])
+                fc = np.array(tofl(fmat(c)))
+                fK = np.array(tofl(fmat(cK)))
+                canon_cache[kk] = {"vars": vs, "mean": fm, "cov": fc, "K": fK, "h": np.array([float(fr(x)) for x in ch]),
+                                   "cond": float(np.linalg.cond(fc)) if len(vs) else 1.0, "K_exact": cK}
+        return canon_cache[kk]
+
+    def check_obj(where, o, gs, step_i):
+        e = expected(gs)
+        det = {"step": step_i, "where": where, "steps": [s_["op"] + ("!" if s_.get("inplace") else "") for s_ in case["steps"]]}
+        if e is None:
+            return None
+        tol = 1e-7 if e["cond"] < 1e6 else None
+        ov = [idx[repr(x)] for x in o.variables]
+        if ov != e["vars"]:
+            return bad("impl!=model:seq-variables", dict(det, impl=ov, model=e["vars"]))
+        k = len(ov)
+        om = np.asarray(o.mean, dtype=float)
+        oc = np.asarray(o.covariance, dtype=float)
+        if om.shape != (k, 1) or oc.shape != (k, k):
+            return bad("impl!=spec:seq-shape", dict(det, mean=list(om.shape), cov=list(oc.shape)))
+        if tol is None:
+            return None
+
+        def mclose(A, B):
+            A = np.asarray(A, dtype=float)
+            return A.shape == B.shape and bool(np.all(np.abs(A - B) <= tol * np.maximum(1.0, np.abs(B))))
+        if not mclose(om.ravel(), e["mean"]):
+            return bad("impl!=model:seq-mean", dict(det, impl=om.ravel().tolist(), model=e["mean"].tolist()))
+        if not mclose(oc, e["cov"]):
+            return bad("impl!=model:seq-covariance", dict(det, impl=oc.tolist(), model=e["cov"].tolist()))
+        cache_before = o._precision_matrix
+        c = o.copy()
+        if c is o or (cache_before is not None and c._precision_matrix is cache_before) or c.mean is o.mean \
+                or c.covariance is o.covariance:
+            return bad("impl!=spec:seq-copy-shares-state", det)
+        if [idx[repr(x)] for x in c.variables] != ov or not mclose(np.asarray(c.mean).ravel(), e["mean"]) \
+                or not mclose(c.covariance, e["cov"]):
+            return bad("impl!=spec:seq-copy", det)
+        if not mclose(c.precision_matrix, e["K"]):
+            return bad("impl!=spec:seq-precision_matrix", dict(det, vars=ov, impl=np.asarray(c.precision_matrix).tolist(),
+                                                                 inverse_of_covariance=e["K"].tolist()))
+        cf = c.to_canonical_factor()
+        if [idx[repr(x)] for x in cf.variables] != ov or not mclose(cf.K, e["K"]) or not mclose(np.asarray(cf.h).ravel(), e["h"]):
+            return bad("impl!=spec:seq-canonical-Kh", dict(det, vars=ov, impl_K=np.asarray(cf.K).tolist(),
+                                                             spec_K=e["K"].tolist(), impl_h=np.asarray(cf.h).ravel().tolist(),
+                                                             spec_h=e["h"].tolist()))
+        gspec = -0.5 * float(e["mean"] @ e["h"]) - math.log((2 * math.pi) ** (k / 2.0) * abs(np.linalg.det(e["cov"])) ** 0.5)
+        if not close(cf.g, gspec, 1e-6):
+            return bad("impl!=spec:seq-canonical-g", dict(det, impl=float(cf.g), spec=gspec))
+        if o._precision_matrix is not cache_before:
+            return bad("impl!=spec:seq-copy-writes-back", det)
+        # white box: the cache itself, when present, is the inverse of the covariance (C20_precision_cache_consistent)
+        if cache_before is not None and not mclose(cache_before, e["K"]):
+            return bad("impl!=spec:seq-stale-precision-cache", dict(det, vars=ov, cached=np.asarray(cache_before).tolist(),
+                                                                      inverse_of_covariance=e["K"].tolist()))
+        return None
+
+    def snapshot(o):
+        return (list(o.variables), np.array(o.mean, copy=True), np.array(o.covariance, copy=True))
+
+    def same(o, snap):
+        return list(o.variables) == snap[0] and np.array_equal(o.mean, snap[1]) and np.array_equal(o.covariance, snap[2])
+
+    obj = mkgd(case["vars"], case["mean"], case["cov"])
+    cur = g0                       # expected distribution of obj (wire form)
+    b = check_obj("initial", obj, cur, -1)
+    if b:
+        return b
+    cache_filled_then_marg = False
+    filled = False
+    for i, st in enumerate(case["steps"]):
+        op = st["op"]
+        if not trace[i]:
+            tags.append("model-exception-at-%s" % op)
+            break
+        (nv, nm, nc), mcache = trace[i][0]
+        nxt_state = [nv, nm, nc]
+        if mcache:                  # the model's own cache is the from-scratch inverse (C20_precision_cache_consistent)
+            e = expected(nxt_state)
+            if e is not None and mcache[0] != e["K_exact"]:
+                return bad("model!=spec:seq-model-cache", {"step": i})
+        left_behind = None
+        if op == "prec":
+            e = expected(cur)
+            P = obj.precision_matrix
+            if e is not None and e["cond"] < 1e6 and not np.allclose(P, e["K"], rtol=1e-7, atol=1e-9):
+                return bad("impl!=spec:seq-precision_matrix", {"step": i, "where": "step", "impl": np.asarray(P).tolist(),
+                                                                 "inverse_of_covariance": e["K"].tolist()})
+            filled = True
+        elif op == "canon":
+            e = expected(cur)
+            cf = obj.to_canonical_factor()
+            if e is not None and e["cond"] < 1e6 and (not np.allclose(cf.K, e["K"], rtol=1e-7, atol=1e-9)
+                                                       or not np.allclose(np.asarray(cf.h).ravel(), e["h"], rtol=1e-7, atol=1e-9)):
+                return bad("impl!=spec:seq-canonical-Kh", {"step": i, "where": "step", "impl_K": np.asarray(cf.K).tolist(),
+                                                             "spec_K": e["K"].tolist()})
+            filled = True
+        elif op == "copy":
+            left_behind = (obj, cur)
+            obj = obj.copy()
+        elif op in ("marg", "reduce"):
+            if op == "marg":
+                args = [names[v] for v in st["sel"]]
+                call = obj.marginalize
+                if filled:
+                    cache_filled_then_marg = True
+            else:
+                args = [(names[v], float(fr(x))) for v, x in zip(st["sel"], st["values"])]
+                call = obj.reduce
+            if st["inplace"]:
+                if call(args, inplace=True) is not None:
+                    return bad("impl!=spec:seq-inplace-return", {"step": i, "op": op})
+            else:
+                snap = snapshot(obj)
+                res = call(args, inplace=False)
+                if not same(obj, snap):
+                    return bad("impl!=spec:seq-mutates-original", {"step": i, "op": op})
+                left_behind = (obj, cur)
+                obj = res
+            filled = False
+        else:
+            other_g = [st["v2"], st["mean2"], st["cov2"]]
+            other = mkgd(st["v2"], st["mean2"], st["cov2"])
+            osnap = snapshot(other)
+            call = obj.product if op == "product" else obj.divide
+            try:
+                if st["inplace"]:
+                    if call(other, inplace=True) is not None:
+                        return bad("impl!=spec:seq-inplace-return", {"step": i, "op": op})
+                    filled = False
+                else:
+                    snap = snapshot(obj)
+                    res = call(other, inplace=False)
+                    if not same(obj, snap):
+                        return bad("impl!=spec:seq-mutates-original", {"step": i, "op": op})
+                    if st["cont"] == "self":
+                        left_behind = (res, None)
+                        filled = True
+                    else:
+                        left_behind = (obj, cur)
+                        obj = res
+                        filled = False
+            except np.linalg.LinAlgError:
+                tags.append("singular-at-%s" % op)
+                break
+            if not same(other, osnap):
+                return bad("impl!=spec:seq-mutates-operand", {"step": i, "op": op})
+            b = check_obj("operand", other, [st["v2"], st["mean2"], st["cov2"]], i)
+            if b:
+                return b
+        if left_behind is not None and left_behind[1] is not None:
+            b = check_obj("object-left-behind", left_behind[0], left_behind[1], i)
+            if b:
+                return b
+        cur = nxt_state
+        b = check_obj("object", obj, cur, i)
+        if b:
+            return b
+        tags.append("seq:" + op + ("(inplace)" if st.get("inplace") else ""))
+    else:
+        # finally the public precision-based API on the object itself
+        e = expected(cur)
+        if e is not None and e["cond"] < 1e6:
+            P = obj.precision_matrix
+            cf = obj.to_canonical_factor()
+            if not np.allclose(P, e["K"], rtol=1e-7, atol=1e-9) or not np.allclose(cf.K, e["K"], rtol=1e-7, atol=1e-9) \
+                    or not np.allclose(np.asarray(cf.h).ravel(), e["h"], rtol=1e-7, atol=1e-9):
+                return bad("impl!=spec:seq-precision_matrix", {"step": len(case["steps"]), "where": "final",
+                                                                 "impl": np.asarray(P).tolist(), "inverse_of_covariance": e["K"].tolist()})
+    if cache_filled_then_marg:
+        tags.append("seq:cache-filled-before-marginalize")
+    key = common.canon_key(["seq", case["vars"], case["mean"], case["cov"], case["steps"], case["style"]])
+    return ok(nontrivial=True, key=key, tags=tags)
+
+
 # ------------------------------------------------------------------ malformed stream
 def run_bad(case, drv):
     import numpy as np
@@ -897,6 +1201,8 @@ def run_case(case, drv):
     k = case["kind"]
     if k == "cwit":
         return run_cwit(case, drv)
+    if k == "seq":
+        return run_seq(case, drv)
     if k == "lgbn":
         return run_lgbn(case, drv)
     if k == "fit":
